@@ -4,6 +4,7 @@ package verifhook
 
 import (
 	"runtime"
+	"runtime/debug"
 	"sync"
 	"time"
 	"unsafe"
@@ -41,12 +42,12 @@ type LConfig struct {
 }
 
 type LResult struct {
-	Steps     int
-	Switches  int
-	Trace     []uint32 // task<<20 | site at every context switch
-	Aborted   bool
-	Forced    int // switches forced at targeted sites
-	PerTask   []int
+	Steps       int
+	Switches    int
+	Trace       []uint32 // task<<20 | site at every context switch
+	Aborted     bool
+	Forced      int // switches forced at targeted sites
+	PerTask     []int
 	Interleaved bool // at least two tasks each ran a step between another task's first and last step
 	// Stalls counts how often the turn holder made no progress for stallAfter
 	// (it was blocked in a real synchronisation primitive of the code under
@@ -72,7 +73,8 @@ var l struct {
 	target   []int
 	first    []int
 	last     []int
-	blocked  []bool // known to sit in a real primitive: not scheduled until it shows up at a yield again
+	blocked  []bool   // known to sit in a real primitive: not scheduled until it shows up at a yield again
+	gids     []uint64 // goroutine id of each task (for the runtime's wait reasons)
 }
 
 //go:norace
@@ -98,9 +100,22 @@ func waitTurn(me int) {
 		}
 		if since.IsZero() {
 			since = time.Now()
+		}
+		holder := l.turn
+		if holder < 0 || holder >= l.n || l.done[holder] || holder == me {
 			continue
 		}
-		if time.Since(since) > stallAfter && l.turn >= 0 && l.turn < l.n && !l.done[l.turn] && l.turn != me {
+		// is the holder parked by the runtime in a synchronisation primitive of
+		// the code under test (a mutex a parked task holds, a channel, a Once)?
+		// Then waiting longer cannot help: take the turn over now. The decision
+		// follows from the interleaving, not from timing.
+		if g := l.gids[holder]; g != 0 && isBlocking(waitReasons()[g]) {
+			l.res.Stalls++
+			l.blocked[holder] = true
+			l.turn = me
+			continue
+		}
+		if time.Since(since) > stallAfter && l.turn == holder {
 			// the holder is blocked in a primitive of the code under test: take over
 			l.res.Stalls++
 			l.blocked[l.turn] = true
@@ -255,6 +270,7 @@ func setupL(n int, cfg LConfig) {
 	l.first = make([]int, n)
 	l.last = make([]int, n)
 	l.blocked = make([]bool, n)
+	l.gids = make([]uint64, n)
 	l.turn = -1
 	l.prio = make([]int, n)
 	l.changeAt = nil
@@ -317,6 +333,13 @@ func startL() {
 // RunL executes the scripts as simulated tasks under scheduler L and returns
 // when all of them have finished. The caller must have set GOMAXPROCS(1).
 func RunL(scripts []func(), cfg LConfig) LResult {
+	// The collector decides when a sync.Pool loses its contents, and with that
+	// which branch pooled code takes: collect twice now (a pool is empty after
+	// two cycles) and not again until the tasks are done, so that a run's yield
+	// sequence does not depend on allocation timing.
+	runtime.GC()
+	runtime.GC()
+	defer debug.SetGCPercent(debug.SetGCPercent(-1))
 	setupL(len(scripts), cfg)
 	var wg sync.WaitGroup
 	for i := range scripts {
@@ -324,6 +347,7 @@ func RunL(scripts []func(), cfg LConfig) LResult {
 		go func(me int) {
 			defer wg.Done()
 			runtime_setProfLabel(unsafe.Pointer(&llabel{id: me}))
+			l.gids[me] = curGid()
 			waitTurn(me)
 			defer exitL(me)
 			scripts[me]()
